@@ -158,6 +158,22 @@ SINGLES = [
     (H_ + "declarations:\n- decl: void f(int *a +rank(1), int n +implied(size(a+1)))\n", None),
     (H_ + "declarations:\n- decl: void f(char *a, int n +implied(len(a//2)))\n", None),
     (H_ + "declarations:\n- decl: void f(char *a, int n +implied(len_trim(1)))\n", None),
+    # implied with a wrong number of arguments
+    (H_ + "declarations:\n- decl: void f(int *a +rank(1), int n +implied(size()))\n", None),
+    (H_ + "declarations:\n- decl: void f(char *a, int n +implied(len()+1))\n", None),
+    (H_ + "declarations:\n- decl: void f(char *a, int n)\n  attrs:\n    n:\n      implied: len_trim()\n", None),
+    (H_ + "declarations:\n- decl: void f(int *a +rank(1), int n +implied(size(a,1,2)))\n", None),
+    # template argument lists the wrappers cannot represent: more than one argument, a dangling comma
+    (H_ + "declarations:\n- decl: void f(std::vector<int,double> &a)\n", "reject"),
+    (H_ + "declarations:\n- decl: void f(std::vector<int,> &a)\n", "reject"),
+    (H_ + "declarations:\n- decl: std::vector<int,long> f()\n", "reject"),
+    (H_ + "declarations:\n- decl: void f(std::vector<int> &a)\n", "accept"),
+    # fields of a typemap / class / struct / typedef that are not documented fields
+    (H_ + "typemap:\n- type: int\n  fields:\n    name: Other\n" + "declarations:\n- decl: void f(int a)\n", "reject"),
+    (H_ + "typemap:\n- type: int\n  fields:\n    update: 3\n" + "declarations:\n- decl: void f(int a)\n", "reject"),
+    (H_ + "typemap:\n- type: int\n  fields:\n    nme: x\n" + "declarations:\n- decl: void f(int a)\n", "reject"),
+    (H_ + "declarations:\n- decl: class K\n  fields:\n    clone_as: x\n  declarations:\n  - decl: void m()\n", "reject"),
+    (H_ + "typemap:\n- type: int\n  fields:\n    f_cast: 'int({f_var}, C_INT)'\n" + "declarations:\n- decl: void f(int a)\n", "accept"),
     (H_ + "declarations:\n- decl: class K\n  declarations:\n  - block: true\n    declarations:\n    - decl: K()\n    - decl: ~K()\n"
           "    - decl: int get()\n", "accept"),
     (H_ + "declarations:\n- decl: class K\n  declarations:\n  - block: true\n    declarations:\n    - block: true\n      declarations:\n"
